@@ -25,9 +25,13 @@ func init() {
 
 func runC12(c *Ctx) {
 	r := c.R
-	r.Rule("C12.R1", "one section per transceiver: every iteration of a generator's loop over local transceivers appends exactly one mediaSection{id: t.Mid(), transceivers: {t}} for the loop's own t; CreateOffer's loop gives every transceiver without a mid one (SetMid on the loop variable) and dominates both generator calls outside Plan-B, over the same slice", 8)
-	r.Rule("C12.R2", "application section: for every valuation of (AlwaysNegotiateDataChannels, dataChannelsRequested, includeUnmatched, already-present, Plan-B) the number of data sections appended outside the remote loop is 1 iff (Always || requested != 0) && includeUnmatched && !alreadyPresent, else 0; the already-present flag is true exactly after a remote application section was appended; dataChannelsRequested is only ever incremented, in CreateDataChannel, once on every success path", 20)
-	r.Rule("C12.R3", "addSenderSDP: msid = \"msid:\" + track.StreamID() + \" \" + track.ID(); every WithMediaSource ssrc and every ssrc-group member is a field of the loop variable over sender.GetParameters().Encodings (FID: SSRC, RTX.SSRC; FEC-FR: SSRC, FEC.SSRC), labels are (StreamID, ID) of the sender's track; GetParameters fills SSRC/RTX/FEC from trackEncoding.ssrc/ssrcRTX/ssrcFEC; Send stores parameters.Encodings[idx].{SSRC,RTX.SSRC,FEC.SSRC} into the same encoding's fields and stream; Send's only caller passes sender.GetParameters(); the SSRC fields are written only in addEncoding, Send and configureRTXAndFEC", 22)
+	// Instance minima count the semantic facts a rule must establish (one per kind of section source, per
+	// attribute, per table cell, per guarded write …), not the incidental number of sites: a refactor that merges
+	// two sites (one error return instead of two, one literal shared by two arms, a block moved into a helper)
+	// must not trip them, while losing an anchor still does.
+	r.Rule("C12.R1", "one section per transceiver: every iteration of a generator's loop over local transceivers appends exactly one mediaSection{id: t.Mid(), transceivers: {t}} for the loop's own t; CreateOffer's loop gives every transceiver without a mid one (SetMid on the loop variable) and dominates both generator calls outside Plan-B, over the same slice", 6)
+	r.Rule("C12.R2", "application section: for every valuation of (AlwaysNegotiateDataChannels, dataChannelsRequested, includeUnmatched, already-present, Plan-B) the number of data sections appended outside the remote loop is 1 iff (Always || requested != 0) && includeUnmatched && !alreadyPresent, else 0; the already-present flag is true exactly after a remote application section was appended; dataChannelsRequested is only ever incremented, in CreateDataChannel, once on every success path", 18)
+	r.Rule("C12.R3", "addSenderSDP: msid = \"msid:\" + track.StreamID() + \" \" + track.ID(); every WithMediaSource ssrc and every ssrc-group member is a field of the loop variable over sender.GetParameters().Encodings (FID: SSRC, RTX.SSRC; FEC-FR: SSRC, FEC.SSRC), labels are (StreamID, ID) of the sender's track; GetParameters fills SSRC/RTX/FEC from trackEncoding.ssrc/ssrcRTX/ssrcFEC; Send stores parameters.Encodings[idx].{SSRC,RTX.SSRC,FEC.SSRC} into the same encoding's fields and stream; Send's only caller passes sender.GetParameters(); the SSRC fields are written only in addEncoding, Send and configureRTXAndFEC", 18)
 	r.Rule("C12.R4", "the direction attribute and the media kind of an accepted section come from the section's first transceiver (Direction().String(), kind.String())", 2)
 	r.NotCovered = append(r.NotCovered,
 		"that no transceiver is lost between the API call (AddTrack/AddTransceiver…) and the offer",
@@ -64,7 +68,6 @@ func c12R1(env *c06Env) {
 		if !ok {
 			continue
 		}
-		info := g.Info
 		nLoops := 0
 		for _, l := range c06RangeLoops(g) {
 			if l.ValueVar == nil || !c06IsNamed(l.ValueVar.Type(), env.trType) {
@@ -85,17 +88,12 @@ func c12R1(env *c06Env) {
 			base := fi.Name() + "|transceiver-loop|range:" + c06Canon(g, l.Head, l.Range.X)
 			for _, n := range in {
 				s := appends[n]
-				pos := c.P.Pos(s.Lit.Pos())
+				pos := c.P.Pos(s.pos())
 				idOK, trOK := false, false
-				if e, has := s.Fields["id"]; has {
-					src := c06MidSource(env, g, n, e)
+				if src, has := s.idSrc(env); has {
 					idOK = src.Class == "transceiver-mid" && src.Var == l.ValueVar
 				}
-				if e, has := s.Fields["transceivers"]; has {
-					if cl, isLit := ast.Unparen(e).(*ast.CompositeLit); isLit && len(cl.Elts) == 1 && core.VarOf(info, cl.Elts[0]) == l.ValueVar {
-						trOK = true
-					}
-				}
+				trOK = s.soleTransceiver() == l.ValueVar
 				r.Check(idOK && trOK && !s.isData(), rule, base+"|append|mediaSection{"+s.fieldNames()+"}", pos, "the section carries the loop's transceiver and its mid",
 					"the section appended for a local transceiver does not carry exactly that transceiver and its Mid() (the offer's m-section would describe another transceiver, or carry another mid)")
 			}
@@ -348,7 +346,15 @@ func c12R2(env *c06Env) {
 			}
 		}
 		fin := c06NewFinite(c.P, g, scope)
-		// the deciding atoms must have been recognised
+		// A deciding variable that the function does not test at all is enumerated all the same (the
+		// outcome then cannot depend on it and the cells that need it fail); one that is tested in a
+		// way the finite partition cannot represent (ordered comparison) leaves the table undecided.
+		if fin.atoms[kAlways] == nil && !fin.poison[kAlways] {
+			fin.atoms[kAlways] = &c06Atom{Key: kAlways, Domain: []constant.Value{constant.MakeBool(false), constant.MakeBool(true)}, Names: []string{"false", "true"}}
+		}
+		if fin.atoms[kReq] == nil && !fin.poison[kReq] {
+			fin.atoms[kReq] = &c06Atom{Key: kReq, Domain: []constant.Value{constant.MakeInt64(0), constant.MakeInt64(1)}, Names: []string{"0", "other(1)"}}
+		}
 		missing := ""
 		for _, k := range []string{kAlways, kReq} {
 			if fin.atoms[k] == nil {
@@ -543,6 +549,9 @@ func c12Requested(env *c06Env, requested *types.Var) {
 	if cdc == nil {
 		return
 	}
+	// the increment may live in CreateDataChannel itself or in a helper that is only ever called
+	// (synchronously, directly) from CreateDataChannel: what matters is that creating a channel is the
+	// only way to change the counter and that it changes it exactly once (checked below through callees)
 	for _, fi := range c.P.AllFuncs() {
 		if fi.Decl.Body == nil {
 			continue
@@ -552,8 +561,17 @@ func c12Requested(env *c06Env, requested *types.Var) {
 			switch s := x.(type) {
 			case *ast.IncDecStmt:
 				if core.FieldOf(info, s.X) == requested {
-					r.Check(s.Tok == token.INC && fi == cdc, rule, "SCTPTransport.dataChannelsRequested|"+s.Tok.String()+"|in:"+fi.Name(), c.P.Pos(s.Pos()), "incremented in CreateDataChannel",
-						"the requested-channel counter is changed outside CreateDataChannel or decremented: the application section can disappear from later offers")
+					key := "SCTPTransport.dataChannelsRequested|" + s.Tok.String() + "|in:" + fi.Name()
+					switch {
+					case s.Tok != token.INC:
+						r.Fail(rule, key, c.P.Pos(s.Pos()), "the requested-channel counter is decremented: the application section can disappear from later offers")
+					case fi == cdc:
+						r.OK(rule, key, c.P.Pos(s.Pos()), "incremented in CreateDataChannel")
+					case c06OnlyCalledFrom(c.P, fi.Obj, cdc.Obj, 0):
+						r.OK(rule, key, c.P.Pos(s.Pos()), "incremented in a helper that is only called from CreateDataChannel")
+					default:
+						r.Fail(rule, key, c.P.Pos(s.Pos()), "the requested-channel counter is changed outside CreateDataChannel (in a function that is also reachable from elsewhere, used as a value, or started asynchronously): the application-section decision no longer reflects 'a data channel was created'")
+					}
 				}
 			case *ast.AssignStmt:
 				for _, l := range s.Lhs {
@@ -569,21 +587,19 @@ func c12Requested(env *c06Env, requested *types.Var) {
 			return true
 		})
 	}
+	// exactly one increment on every path to a success return, counted through same-module callees
+	ef := c06NewEffect(c.P, func(info *types.Info, a ast.Node) int {
+		k := 0
+		core.InspectShallow(a, func(x ast.Node) bool {
+			if s, ok := x.(*ast.IncDecStmt); ok && s.Tok == token.INC && core.FieldOf(info, s.X) == requested {
+				k++
+			}
+			return true
+		})
+		return k
+	})
 	g := c.P.GraphOf(cdc)
-	info := g.Info
-	incs := map[int]bool{}
-	for _, n := range g.FindNodes(func(x ast.Node) bool {
-		s, ok := x.(*ast.IncDecStmt)
-		return ok && s.Tok == token.INC && core.FieldOf(info, s.X) == requested
-	}) {
-		incs[n] = true
-	}
-	w := func(n int) c06Span {
-		if incs[n] {
-			return c06Span{1, 1}
-		}
-		return c06Span{}
-	}
+	w := ef.weight(g, 0)
 	nOK := 0
 	for _, rn := range g.Returns() {
 		ret := g.Nodes[rn].Ast.(*ast.ReturnStmt)
@@ -593,7 +609,7 @@ func c12Requested(env *c06Env, requested *types.Var) {
 		nOK++
 		sp, ok := c06PathCount(g, g.Entry, rn, nil, nil, w)
 		r.Cells++
-		r.Check(ok && sp == c06Span{1, 1}, rule, "(*PeerConnection).CreateDataChannel|success-return|dataChannelsRequested++", c.P.Pos(ret.Pos()), "incremented exactly once on every path to the success return",
+		r.Check(ok && sp == c06Span{1, 1}, rule, "(*PeerConnection).CreateDataChannel|success-return|dataChannelsRequested++", c.P.Pos(ret.Pos()), "incremented exactly once (directly or in a callee) on every path to the success return",
 			"a data channel can be created successfully with the requested-channel counter incremented "+sp.String()+" times: the next offer lacks the application section")
 	}
 	if nOK == 0 {
@@ -814,28 +830,44 @@ func c12R3(env *c06Env) {
 				if len(call.Args) != 2 {
 					continue
 				}
+				if k, ok := c06ConstString(info, call.Args[0]); ok && k == "msid" {
+					// key/value spelling of the msid attribute: value "<streamID> <trackID>"
+					nMsid++
+					key := "addSenderSDP|a=msid"
+					if nMsid > 1 {
+						key += sprintf("#%d", nMsid)
+					}
+					parts, okParts := c06StringParts(info, call.Args[1])
+					good := okParts && len(parts) == 3 && !parts[0].IsConst && isTrackCall(nd.ID, parts[0].Expr, streamID) &&
+						parts[1].IsConst && parts[1].Const == " " && !parts[2].IsConst && isTrackCall(nd.ID, parts[2].Expr, trackID)
+					r.Check(good && onMedia, rule, key, pos, "msid:<streamID> <trackID>", "the msid attribute of the section being built is not \"<track.StreamID()> <track.ID()>\" of the sender's track (stream id first, then track id)")
+					continue
+				}
 				if k, ok := c06ConstString(info, call.Args[0]); !ok || k != "ssrc-group" {
 					continue
 				}
-				sp, isCall := ast.Unparen(call.Args[1]).(*ast.CallExpr)
-				okShape := isCall && c06ExtFunc(info, sp, "fmt", "Sprintf") && len(sp.Args) == 4
-				sem, format := "", ""
+				// the value, normalised: "<semantics> " + primary + " " + secondary, whether written as
+				// fmt.Sprintf("%s %d %d", sem, a, b) (any constant spelling of format and semantics) or by concatenation
+				parts, okShape := c06StringParts(info, call.Args[1])
+				okShape = okShape && len(parts) == 4 && parts[0].IsConst && !parts[1].IsConst && parts[2].IsConst && parts[2].Const == " " && !parts[3].IsConst &&
+					strings.HasSuffix(parts[0].Const, " ") && !strings.Contains(strings.TrimSuffix(parts[0].Const, " "), " ")
+				sem := ""
 				if okShape {
-					format, _ = c06ConstString(info, sp.Args[0])
-					sem, _ = c06ConstString(info, sp.Args[1])
+					sem = strings.TrimSuffix(parts[0].Const, " ")
 				}
 				key := "addSenderSDP|a=ssrc-group|" + sem
 				seenGrp[sem]++
 				if seenGrp[sem] > 1 {
 					key += sprintf("#%d", seenGrp[sem])
 				}
-				if !okShape || format != "%s %d %d" {
-					r.Undecided(rule, key, pos, "ssrc-group value is not fmt.Sprintf(\"%s %d %d\", semantics, primary, secondary)")
+				if !okShape {
+					r.Undecided(rule, key, pos, "ssrc-group value is not of the form \"<semantics> <primary> <secondary>\" (Sprintf with %s/%d verbs or concatenation)")
 					continue
 				}
+				argPrimary, argSecondary := parts[1].Expr, parts[3].Expr
 				want := map[string]string{"FID": "RTX.SSRC", "FEC-FR": "FEC.SSRC"}[sem]
-				p1, ok1 := encPath(nd.ID, sp.Args[2])
-				p2, ok2 := encPath(nd.ID, sp.Args[3])
+				p1, ok1 := encPath(nd.ID, argPrimary)
+				p2, ok2 := encPath(nd.ID, argSecondary)
 				switch {
 				case want == "":
 					r.Undecided(rule, key, pos, "unknown ssrc-group semantics "+sem)
@@ -854,8 +886,8 @@ func c12R3(env *c06Env) {
 				if len(call.Args) != 1 {
 					continue
 				}
-				parts := c06Concat(call.Args[0])
-				if p0, ok := c06ConstString(info, parts[0]); !ok || !strings.HasPrefix(p0, "msid:") {
+				parts, okParts := c06StringParts(info, call.Args[0])
+				if !okParts || len(parts) == 0 || !parts[0].IsConst || !strings.HasPrefix(parts[0].Const, "msid:") {
 					continue
 				}
 				nMsid++
@@ -863,12 +895,8 @@ func c12R3(env *c06Env) {
 				if nMsid > 1 {
 					key += sprintf("#%d", nMsid)
 				}
-				p0, _ := c06ConstString(info, parts[0])
-				good := len(parts) == 4 && p0 == "msid:" && isTrackCall(nd.ID, parts[1], streamID) && isTrackCall(nd.ID, parts[3], trackID)
-				if good {
-					sep, ok := c06ConstString(info, parts[2])
-					good = ok && sep == " "
-				}
+				good := len(parts) == 4 && parts[0].Const == "msid:" && !parts[1].IsConst && isTrackCall(nd.ID, parts[1].Expr, streamID) &&
+					parts[2].IsConst && parts[2].Const == " " && !parts[3].IsConst && isTrackCall(nd.ID, parts[3].Expr, trackID)
 				switch {
 				case !good:
 					r.Fail(rule, key, pos, "the msid attribute is not \"msid:\" + track.StreamID() + \" \" + track.ID() of the sender's track (stream id first, then track id)")
